@@ -812,6 +812,135 @@ def history(c):
                       'rng_calls': rng.calls}}
 
 
+# ========================================================= E1: selections
+FN_SEL = 'mc.checks.c13_noise:selection'
+SEL_MASKS = ('none', 'datum', 'freq', 'rec+freq', 'src', 'almost-all')
+
+
+def _sel_lists(keys):
+    out = [None]
+    for k in range(1, len(keys) + 1):
+        for sub in itertools.permutations(keys, k):
+            out.append(list(sub))
+    return out
+
+
+def selection(c):
+    """Survey.select with lists in ANY order: the result holds exactly the
+    chosen labels (minus, with remove_empty, those whose slice of the chosen
+    sub-cube has no finite observation) and every datum / noise entry under a
+    label triple is the one the original holds under that triple."""
+    import emg3d
+    shape = (2, 3, 3)
+    v = e1_values({'shape': shape, 'nf': 'full', 're': 'freq', 'nan': 'none'})
+    dobs = v['dobs'].copy()
+    nanv = np.nan + 1j*np.nan
+    m = c['mask']
+    if m == 'datum':
+        dobs[1, 0, 2] = nanv
+    elif m == 'freq':
+        dobs[:, :, 1] = nanv
+    elif m == 'rec+freq':
+        dobs[:, 2, :] = nanv
+        dobs[:, :, 0] = nanv
+    elif m == 'src':
+        dobs[0, :, :] = nanv
+    elif m == 'almost-all':
+        dobs[...] = nanv
+        dobs[1, 1, 2] = v['dobs'][1, 1, 2]
+    src, rec, freq = _geometry(*shape)
+    with warnings.catch_warnings():
+        _quiet()
+        survey = emg3d.Survey(src, rec, freq,
+                              data={'observed': dobs.copy(),
+                                    'synthetic': v['dsyn'].copy()},
+                              noise_floor=np.copy(v['nf']),
+                              relative_error=np.copy(v['re']))
+        names = [list(src), list(rec), list(freq)]
+        lists = [c['src'], c['rec'], c['freq']]
+        chosen = [names[a] if lists[a] is None else lists[a]
+                  for a in range(3)]
+        idx = [[names[a].index(k) for k in chosen[a]] for a in range(3)]
+        sub = dobs[np.ix_(*idx)]
+        keep = [list(chosen[a]) for a in range(3)]
+        if c['remove_empty'] and np.isfinite(sub).any():
+            for a in range(3):
+                other = tuple(x for x in range(3) if x != a)
+                ok = np.isfinite(sub).any(axis=other)
+                keep[a] = [k for k, o in zip(chosen[a], ok) if o]
+        sel = survey.select(sources=c['src'], receivers=c['rec'],
+                            frequencies=c['freq'],
+                            remove_empty=c['remove_empty'])
+    viol = []
+    got = [list(sel.sources), list(sel.receivers), list(sel.frequencies)]
+    tag = (f"select(sources={c['src']}, receivers={c['rec']}, frequencies="
+           f"{c['freq']}, remove_empty={c['remove_empty']}), NaN mask "
+           f"'{m}'")
+    compared = 1
+    if [sorted(g) for g in got] != [sorted(k) for k in keep]:
+        viol.append({'cls': 'selection-holds-other-labels',
+                     'what': f'{tag}: labels {got}, chosen sub-cube has '
+                             f'{keep}', 'observed': got, 'expected': keep})
+    else:
+        full = {'observed': dobs, 'synthetic': v['dsyn'],
+                'noise_floor': np.broadcast_to(v['nf'], shape),
+                'relative_error': np.broadcast_to(v['re'], shape)}
+        gi = [[names[a].index(k) for k in got[a]] for a in range(3)]
+        for name, arr in full.items():
+            want = arr[np.ix_(*gi)]
+            if name in ('observed', 'synthetic'):
+                have = np.asarray(sel.data[name].data)
+            else:
+                have = np.broadcast_to(np.asarray(getattr(sel, name)),
+                                       want.shape)
+            compared += 1
+            if have.shape != want.shape or not ref.same(have, want):
+                viol.append({
+                    'cls': 'selection-is-not-the-sub-cube',
+                    'what': f'{tag}: {name} of the selection is not the '
+                            'original value under the same (source, receiver,'
+                            ' frequency) labels', 'observed': have,
+                    'expected': want})
+                break
+        # the objects behind the labels
+        for a, (attr, orig) in enumerate((('sources', src),
+                                          ('receivers', rec),
+                                          ('frequencies', freq))):
+            for k in got[a]:
+                compared += 1
+                if getattr(sel, attr)[k] != orig[k]:
+                    viol.append({'cls': 'selection-relabels-objects',
+                                 'what': f'{tag}: {attr}[{k}] differs'})
+    # the original is untouched
+    if not ref.same(np.asarray(survey.data.observed.data), dobs) or \
+            list(survey.frequencies) != names[2]:
+        viol.append({'cls': 'selection-changed-the-original',
+                     'what': tag})
+    return {'viol': viol, 'compared': compared, 'transitions': 1,
+            'nontrivial': any(x is not None for x in lists),
+            'outcome': (m, c['remove_empty'],
+                        tuple(len(k) for k in keep))}
+
+
+def selection_cases(tier):
+    shape = (2, 3, 3)
+    src, rec, freq = [[f'{p}{i}' for i in range(n)]
+                      for p, n in zip('SRF', shape)]
+    out = []
+    for mask in SEL_MASKS:
+        for re_ in (True, False):
+            for s in _sel_lists(src):
+                for r in _sel_lists(rec):
+                    for f in _sel_lists(freq):
+                        nlist = sum(x is not None for x in (s, r, f))
+                        if tier == 'quick' and nlist == 3 and \
+                                mask not in ('rec+freq', 'freq'):
+                            continue
+                        out.append({'mask': mask, 'remove_empty': re_,
+                                    'src': s, 'rec': r, 'freq': f})
+    return out
+
+
 # ================================================ E2 on Simulation (misfit)
 FN_SIM = 'mc.checks.c13_noise:simhistory'
 SIM_OPS = ['misfit', 'nf:scalar', 'nf:full', 're:scalar', 're:rec', 're:none',
@@ -1087,6 +1216,17 @@ def run(ctx):
             rule='all 27 shapes x covering noise forms with really computed '
                  'fields (4x4x4 grid, one multigrid cycle)',
             time_cap=cap*0.15)
+    if ctx.wants('selections'):
+        ctx.explore(
+            'selections', FN_SEL, selection_cases(ctx.tier), engine='E1',
+            rule='survey 2x3x3 with array noise settings x 6 NaN masks '
+                 '(incl. whole frequencies / receivers / sources empty) x '
+                 'remove_empty x ALL ordered sub-lists (any order, any '
+                 'subset) per axis (quick: triples of lists only for the '
+                 'masks with empty slices); labels and label-wise values of '
+                 'the selection vs the chosen sub-cube; non-trivial = a list '
+                 'was given',
+            time_cap=cap*0.5)
     if ctx.wants('simulation-histories'):
         d = 3 if quick else 4
         ctx.explore(
